@@ -56,6 +56,14 @@ OPS = [
     ("neg-if", re.compile(r"\bif (?!let\b)(.+) \{$"), r"if !(\1) {"),
     ("del-stmt", re.compile(r"^(\s*)(self|lo|table|this|me)\.[\w\.]+\(.*\);\s*$"), r"\1();"),
     ("del-unsafe-stmt", re.compile(r"^(\s*)unsafe \{ (self|lo)\.[\w\.]+\(.*\) \};?\s*$"), r"\1();"),
+    ("zero->one", re.compile(r"(?<![\.\w])0(?![\.\w])"), "1"),
+    ("one->zero", re.compile(r"(?<![\.\w])1(?![\.\w])"), "0"),
+    ("two->three", re.compile(r"(?<![\.\w])2(?![\.\w])"), "3"),
+    ("some->None", re.compile(r"\bSome\(([^()]+)\)(?=[;,]?\s*$)"), "None"),
+    ("del-assign", re.compile(r"^(\s*)\*?[\w\.]+ [\+\-]?= .*;\s*$"), r"\1();"),
+    ("del-call", re.compile(r"^(\s*)(mem::forget|drop|core::mem::forget)\(.*\);\s*$"), r"\1();"),
+    ("and-true", re.compile(r" && [^&|{]+(?= \{$)"), ""),
+    ("or-false", re.compile(r" \|\| [^&|{]+(?= \{$)"), ""),
 ]
 
 
@@ -168,6 +176,9 @@ def main():
     workers = int(arg("--workers", "4"))
     out = arg("--out", "/tmp/mut")
     checks = arg("--checks", ",".join(ORDER)).split(",")
+    only_ops = arg("--ops", "")
+    if only_ops:
+        sites = [x for x in sites if x["op"] in only_ops.split(",")]
     os.makedirs(out, exist_ok=True)
     rng = random.Random(seed)
     rng.shuffle(sites)
